@@ -563,3 +563,71 @@ def run_g(run, P, units=('coap_pdu.c', 'coap_option.c')):
         ctx = solve(f, Env(), on_event, None, keys, R)
         run.stats['width_solver_steps'] += ctx.steps
     run.stats['width_implicit_local_narrowings'] = n
+
+
+def run_h(run, P, units=('coap_pdu.c', 'coap_option.c')):
+    """R-WIDTH (h): wrap before widening.  In the codec units, an addition / multiplication / left shift that is carried out in a 32-bit
+    type and whose result is then converted to a 64-bit type (the implicit conversion of an initialiser, an assignment or a return to
+    size_t) does not exceed 32 bits by the interval analysis: `uint32_t ext_len = ...; size = ext_len + 65805;` adds in 32 bits, wraps
+    for the top 65805 lengths and hands a small size to the code that refuses over-long messages.  Where the operands are not bounded
+    below 2^32 - K the operation has to be done in the wide type (one operand converted first)."""
+    run.rule('R-WIDTH')
+    n = 0
+    for f in sorted(P.lib_funcs(), key=lambda f: f['name']):
+        if units and f['unit'] not in units:
+            continue
+        name = f['name']
+        cands = []
+        for b, ev in P.events(f):
+            t = ev['e']
+            rhs = []
+            if t.get('k') == 'decl':
+                rhs = [(d['n'], d['init']) for d in t['d'] if d.get('init')]
+            elif t.get('k') == 'asg' and t.get('op') == '=' and ev.get('top'):
+                rhs = [(short(t['l']), t['r'])]
+            elif t.get('k') == 'ret' and t.get('e') is not None:
+                rhs = [('the return value', t['e'])]
+            for nm, r in rhs:
+                if isinstance(r, dict) and r.get('k') == 'cast' and not r.get('ex') and r.get('ck') == 'IntegralCast' and r.get('w') == 64:
+                    inner = r.get('e')
+                    while isinstance(inner, dict) and inner.get('k') == 'cast' and inner.get('ck') in ('LValueToRValue', 'NoOp'):
+                        inner = inner.get('e')
+                    if isinstance(inner, dict) and inner.get('k') == 'bin' and inner.get('op') in ('+', '*', '<<') and inner.get('w') == 32 and not inner.get('s'):
+                        cands.append((ev, nm, inner))
+        if not cands:
+            continue
+        cand_evs = set(id(c[0]) for c in cands)
+        extra = set()
+        for ev, nm, inner in cands:
+            extra |= aps_of(inner)
+        keys, R = relevance(f, lambda ev: id(ev) in cand_evs, extra)
+        R = R | extra
+        done = set()
+
+        def on_event(ev, env, ctx):
+            if id(ev) not in cand_evs:
+                return None
+            for cev, nm, inner in cands:
+                if cev is not ev:
+                    continue
+                lr = ivl.eval_raw(inner['l'], env)
+                rr = ivl.eval_raw(inner['r'], env)
+                if inner['op'] == '+':
+                    hi = lr[1] + rr[1]
+                elif inner['op'] == '*':
+                    hi = lr[1] * rr[1] if INF not in (lr[1], rr[1]) else INF
+                else:
+                    hi = lr[1] << rr[1] if INF not in (lr[1], rr[1]) and rr[1] < 64 else INF
+                ok = hi <= 0xFFFFFFFF
+                if (ev['loc'], nm) not in done:
+                    done.add((ev['loc'], nm))
+                    run.instance('R-WIDTH', '%s: %s = (64 bit) %s computed in 32 bits, at most %s' % (name, nm, short(inner)[:40], hi))
+                run.oblige('R-WIDTH', ok, '%s:%s:no-wrap-before-widening' % (name, nm))
+                if not ok:
+                    run.violation('R-WIDTH', name, ev['loc'], 'wrap-before-widening:%s' % nm.replace(' ', '-'),
+                                  '`%s` is computed in a 32-bit type and only then converted to 64 bits for %s; it can reach %s, so the largest inputs wrap to small values '
+                                  '(an over-long length passes for a short one)' % (short(inner)[:60], nm, hi if hi != INF else 'any value'), ctx.path())
+            return None
+        n += len(cands)
+        solve(f, Env(), on_event, None, keys, R)
+    run.stats['width_32bit_ops_widened'] = n
